@@ -32,9 +32,14 @@ type taskMsg struct {
 }
 
 type resultMsg struct {
-	Res json.RawMessage `json:"res,omitempty"`
-	Err string          `json:"err,omitempty"`
+	Res      json.RawMessage `json:"res,omitempty"`
+	Err      string          `json:"err,omitempty"`
+	Poisoned bool            `json:"poisoned,omitempty"` // the worker should not be used again (e.g. a goroutine of it is spinning)
 }
+
+// WorkerPoisoned is set by a task that leaves the worker process in a state it should not be reused in
+// (a decoder that never returns keeps spinning in its goroutine): the master replaces the worker.
+var WorkerPoisoned bool
 
 // WorkerMain serves tasks from stdin until EOF.
 func WorkerMain() {
@@ -64,11 +69,12 @@ func WorkerMain() {
 				}
 			}
 		}
+		r.Poisoned = WorkerPoisoned
 		b, _ := json.Marshal(r)
 		out.Write(b)
 		out.WriteByte('\n')
 		out.Flush()
-		if err != nil {
+		if err != nil || WorkerPoisoned {
 			return
 		}
 	}
@@ -263,6 +269,10 @@ func (p *Pool) Map(op string, args []interface{}, onResult func(i int, r TaskRes
 							w = nil
 						} else {
 							tr.Res, tr.Err = rm.Res, rm.Err
+							if rm.Poisoned {
+								w.stop()
+								w = nil
+							}
 						}
 					}
 				case <-time.After(p.TaskTimeout):
